@@ -196,7 +196,7 @@ E.register(C08())
 
 # ---------------------------------------------------------------------------------------
 FULL_MIX = {"let": 10, "assert": 3, "guarded": 2.5, "ite_call": 1.0, "set_ie": 0.3, "val": 1,
-            "array": 0.8, "aset": 0.8, "aget": 1.0, "hash": 0.12}
+            "array": 0.8, "aset": 0.8, "aget": 1.0, "hash": 0.12, "set_res": 0.25, "set_bl": 0.2}
 
 
 class C01(TraceCheck):
@@ -513,7 +513,7 @@ class C03(ProverCheck):
     budget = {"quick": 500, "thorough": 20000}
     kinds = ["lt", "le", "eq", "ne", "gt", "ge", "zero", "nonzero", "positive", "positive_n", "range",
              "range_secret", "tobool", "bits_n", "bool_cmp", "fxp_cmp", "fxp_range", "gt", "lt", "positive_n",
-             "range", "bool_vs_int", "boolop_int"]
+             "range", "bool_vs_int", "boolop_int", "fxp_const_other_resolution", "int_const_other_bitlength"]
     rule = ("one assertion or type declaration per plan (assert_lt/le/eq/ne/gt/ge on integer, boolean and "
             "fixed-point operands with secret and constant right-hand sides, assert_zero/nonzero, "
             "assert_positive with and without an explicit width, assert_range with constant and secret "
@@ -583,6 +583,28 @@ class C03(ProverCheck):
             else:
                 stmt = {"s": "let", "e": {"op": rng.choice(["&", "|", "^", "==", "!="]), "a": Bref, "b": Iref, "t": "B"}}
             vectors = [[b, x] for b in (0, 1) for x in (0, 1, 2, -1, 7)]
+        elif kind in ("fxp_const_other_resolution", "int_const_other_bitlength"):
+            # history: the same constant was used earlier in the run under another resolution / bitlength
+            c = rng.choice([1, 2, 3, 5])
+            ak = rng.choice(list(ASSERT_CMP_KINDS))
+            if kind == "fxp_const_other_resolution":
+                r1, r2 = rng.sample([0, 2, 4, 8], 2)
+                conv = {"call": "tofxp", "args": [A], "t": "F"}
+                pre = [{"s": "set_res", "value": r1},
+                       {"s": "assert", "kind": rng.choice(list(ASSERT_CMP_KINDS)), "args": [conv, {"k": c, "t": "I"}], "try": True},
+                       {"s": "set_res", "value": r2}]
+                stmt = {"s": "assert", "kind": ak, "args": [conv, {"k": c, "t": "I"}]}
+            else:
+                b1, b2 = rng.sample([3, 4, 6, 8], 2)
+                pre = [{"s": "set_bl", "value": b1},
+                       {"s": "assert", "kind": rng.choice(list(ASSERT_CMP_KINDS)), "args": [A, {"k": c, "t": "I"}], "try": True},
+                       {"s": "set_bl", "value": b2}]
+                stmt = {"s": "assert", "kind": ak, "args": [A, {"k": c, "t": "I"}]}
+                cfg["bitlength"] = b2
+                bl = b2
+            vectors = [[a] for a in _boundary(rng, c, min(bl, 4))]
+            plan = {"cfg": cfg, "inputs": inputs, "body": pre + [stmt]}
+            return {"plan": plan, "vectors": vectors[:12], "seed": rng.randrange(1 << 30)}
         elif kind in ("fxp_cmp", "fxp_range"):
             res = cfg["resolution"]
             u = 1.0 / (1 << res)
@@ -602,8 +624,60 @@ class C03(ProverCheck):
         plan = {"cfg": cfg, "inputs": inputs, "body": [stmt]}
         return {"plan": plan, "vectors": vectors[:12], "seed": rng.randrange(1 << 30)}
 
+    def native_truth(self, plan, vec):
+        """Truth of the asserted relation on the plain operand values (independent of the library), or
+        None when this statement has no such reading."""
+        s = plan["body"][-1]
+        bl = plan["cfg"]["bitlength"]
+        for st in plan["body"][:-1]:
+            if st.get("s") == "set_bl":
+                bl = st["value"]
+        types = [i["t"] for i in plan["inputs"]]
+
+        def val(e):
+            if "k" in e:
+                return e["k"]
+            if "ref" in e:
+                idx = [j for j, t in enumerate(types) if t == e["t"]]
+                if not idx:
+                    return None
+                j = idx[e["ref"] % len(idx)]
+                return vec[j] if j < len(vec) else plan["inputs"][j]["v"]
+            if e.get("call") == "tofxp":
+                return val(e["args"][0])
+            return None
+        import operator
+        ops = {"lt": operator.lt, "le": operator.le, "eq": operator.eq, "ne": operator.ne, "gt": operator.gt,
+               "ge": operator.ge}
+        if s["s"] == "assert":
+            a = [val(x) for x in s["args"]]
+            if any(x is None for x in a):
+                return None
+            k = s["kind"]
+            if k in ops:
+                return bool(ops[k](a[0], a[1]))
+            if k == "zero":
+                return a[0] == 0
+            if k == "nonzero":
+                return a[0] != 0
+            if k == "positive":
+                n = s.get("bits") if s.get("bits") is not None else bl
+                return 0 <= a[0] < (1 << n)
+            if k == "range":
+                return a[1] <= a[0] < a[2]
+        elif s["s"] == "let":
+            e = s["e"]
+            if e.get("call") == "tobool":
+                v = val(e["args"][0])
+                return None if v is None else v in (0, 1)
+            if e.get("call") == "bits_roundtrip":
+                v = val(e["args"][0])
+                n = e.get("n") if e.get("n") is not None else bl
+                return None if v is None else 0 <= v < (1 << n)
+        return None
+
     def stmt_desc(self, plan):
-        s = plan["body"][0]
+        s = plan["body"][-1]
 
         def kd(x):
             return "k" if "k" in x else x["t"]
@@ -651,6 +725,10 @@ class C03(ProverCheck):
                 t = PV.Trace(checked)
                 bad = t.unsat(t.base_assignment())
                 probes["accepted_vectors"] = probes.get("accepted_vectors", 0) + 1
+                truth = self.native_truth(plan, vec)
+                if truth is False:
+                    add("false_relation_accepted", "honest",
+                        "operands %r: the asserted relation is false on the plain values but the call was accepted" % (vec,))
                 if bad:
                     add("accepted_but_unsatisfied", "honest",
                         "operands %r accepted by the run-time check, constraints %r not satisfied" % (vec, bad[:3]))
@@ -1143,6 +1221,12 @@ class FileCheck(TraceCheck):
         for inp in plan["inputs"]:
             if rng.random() < 0.4:
                 inp["kind"] = "pub"
+        if rng.random() < 0.2 and plan["body"]:
+            # history: an explicit prove() in the middle of the script, more tracing (incl. new public values)
+            # afterwards, then the final proving step
+            k = rng.randrange(0, len(plan["body"]) + 1)
+            plan["body"].insert(k, {"s": "checkpoint_prove"})
+            plan["body"].append({"s": "val", "a": {"ref": rng.randrange(8), "t": "I"}, "try": True})
         g = P.Gen(rng, cfg)
         alt = []
         for inp in plan["inputs"]:
@@ -2092,6 +2176,18 @@ class BlockGen:
             self.loopvars.append(lv)
             s = {"s": "block_for", "stop": stop, "max": r.randrange(1, 5), "lv": lv,
                  "checkstopmax": r.random() < 0.4, "body": self.body()}
+            if r.random() < 0.2 and self.depth < self.cfg.get("max_nesting", 2):
+                # one _range object stored in a variable and used by this loop and by a loop nested in it
+                self.lvn += 1
+                rv = "_rg%d" % self.lvn
+                inner_lv = "_i%d" % self.lvn
+                self.loopvars.append(inner_lv)
+                inner = {"s": "block_for", "stop": stop, "max": s["max"], "lv": inner_lv, "checkstopmax": s["checkstopmax"],
+                         "range_var": rv, "body": self.body(2)}
+                self.loopvars.pop()
+                s["range_var"] = rv
+                s["range_def"] = True
+                s["body"].insert(r.randrange(0, len(s["body"]) + 1), inner)
             if r.random() < 0.3:
                 s["breakif"] = self.cond()
                 s["break_pos"] = r.randrange(0, len(s["body"]) + 1)
@@ -2862,7 +2958,7 @@ class C13(TraceCheck):
         xs = [rng.choice([1, 2, -1, -2, p - 1, p + 1, 2 * p + 3, -p + 1, rng.randrange(1, p), -rng.randrange(1, p),
                           (1 << 300) + 7]) for _ in range(6)]
         return {"backend": backend, "vals": vals, "kinds": [rng.choice(["priv", "pub"]) for _ in vals],
-                "ops": ops, "inv": xs}
+                "ops": ops, "inv": xs, "warm_base": rng.random() < 0.5}
 
     def run(self, case):
         name = case["backend"]
@@ -2877,7 +2973,19 @@ class C13(TraceCheck):
             if not any(v["oracle"] == oracle and v["site"] == s for v in viol):
                 viol.append({"property": "C13", "oracle": oracle, "site": s, "detail": detail})
         try:
-            b = import_backend_module(name)
+            if case.get("warm_base") and name in ("zkifbellman", "zkifbulletproofs"):
+                # import-order history: the base module is imported and used first, then the derived module
+                # switches the field
+                b0 = import_backend_module("zkinterface")
+                for x in case["inv"]:
+                    try:
+                        b0.fieldinverse(x)
+                    except Exception:
+                        pass
+                import importlib as _il
+                b = _il.import_module(W.BACKEND_MODULES[name])
+            else:
+                b = import_backend_module(name)
             if name == "qaptools":
                 def coeffs(lc):
                     out = {}
@@ -3021,6 +3129,7 @@ class QapRun:
                  "PrivValFxp": lambda v: rt.PrivVal(int(v)), "PubValFxp": lambda v: rt.PubVal(int(v)),
                  "Array": importlib.import_module("pysnark.array").Array, "ConstVal": rt.ConstVal,
                  "subqap": b.subqap, "exportcomm": b.exportcomm, "__zero__": rt.ConstVal(0),
+                 "__set_res__": lambda r: None, "__set_bl__": lambda bl: setattr(rt, "bitlength", bl),
                  "importcomm": b.importcomm, "__inputs__": self.inputs,
                  "__step__": lambda *a: None, "__enter__": lambda *a: None, "__leave__": lambda *a: None,
                  "__caught__": lambda k, e, m=(): self.caught.append((k, type(e).__name__, str(e)[:80])),
